@@ -31,6 +31,7 @@ type recvScn struct {
 	Users    []wirekit.IDName `json:"users"`
 	Groups   []wirekit.IDName `json:"groups"`
 	Judge    []string        `json:"judge"` // aspects the property under check constrains (echoed for RecvTrace)
+	Sub      string          `json:"sub"`   // daemon receiver: destination argument after module-name stripping ("" = "/", the module root)
 }
 
 type recvEntry struct {
@@ -163,7 +164,11 @@ func recvHandler(w *workerCtx, line []byte) (any, error) {
 		}
 		mod := &rsyncd.Module{Name: "m", Path: dest, Writable: true}
 		sargs := append([]string{"--server"}, args...)
-		sargs = append(sargs, ".", ".")
+		sub := s.Sub
+		if sub == "" {
+			sub = "/"
+		}
+		sargs = append(sargs, ".", sub)
 		p = drv.StartServerReceiver(srv, mod, sargs, -1, -1, nil)
 		err = p.ClientHandshake(s.Opts["del"])
 		if err != nil {
